@@ -127,6 +127,15 @@ def shortestLen (tables : List (List Id)) (key : Id) : Nat :=
 def resolvePrefix (tables : List (List Id)) (p : Id) : Resolution Id :=
   tables.foldl (fun acc tbl => if acc = .ambiguous then acc else acc.plus (prefixMatches tbl p)) .noMatch
 
+/-- cut id lists given in global position order into segments of the given local sizes (oldest
+first); the result lists the segments child first, as `ancestor_index_segments` does -/
+def mkSegs (commits : Bool) : List Nat → List Id → Nat → List Seg → List Seg
+  | [], _, _, acc => acc
+  | n :: ns, ids, start, acc =>
+    let own := ids.take n
+    mkSegs commits ns (ids.drop n) (start + n)
+      ({ numParent := start, commits := if commits then own else [], changes := if commits then [] else own } :: acc)
+
 def commitTables (segs : List Seg) : List (List Id) := segs.map fun s => sortIds s.commits
 def changeTables (segs : List Seg) : List (List Id) := segs.map fun s => sortIds s.changes
 
@@ -180,14 +189,14 @@ def resolveChangeTargets (idx : Index) (heads : List Nat) (segs : List Seg) (p :
 /-! ### `IdPrefixIndex`: the disambiguation index in front of the repo-wide index -/
 
 /-- `IdIndex::resolve_prefix_to_key` over the keys of the disambiguation set (set-level model of
-the sorted short-key table): the empty prefix is ambiguous, otherwise decided by the distinct
-matching keys -/
+the sorted short-key table; the scan order inside the table is not observable): the empty prefix
+is ambiguous; otherwise the inner `collect`: the first matching key, provided every other
+matching entry has the same key -/
 def idIndexResolve (keys : List Id) (p : Id) : Resolution Id :=
   if p = [] then .ambiguous else
-  match (keys.filter (matchesPrefix p)).eraseDups with
+  match keys.filter (matchesPrefix p) with
   | [] => .noMatch
-  | [k] => .single k
-  | _ => .ambiguous
+  | k :: rest => if rest.all (· == k) then .single k else .ambiguous
 
 /-- `lookup_exact(..).map(shortest_unique_prefix_len)`: at least one digit -/
 def idIndexShortest (keys : List Id) (key : Id) : Option Nat :=
